@@ -8,5 +8,5 @@ mkdir -p "$T/repo"
 cp -r /repo/src "$T/repo/src"
 (cd "$T/repo" && patch -p1 -s < "$P")
 for id in "$@"; do
-  SX_REPO_SRC="$T/repo/src" /verif/check "$id" --tier "${TIER:-quick}" 2>&1 | grep -E "VIOLATION|^\[|INCONCLUSIVE|ENGINE-FAULT" | cut -c1-300 || true
+  SX_EVIDENCE_DIR="$T/evidence" SX_REPLAY_DIR=/verif/scratch/replays SX_REPO_SRC="$T/repo/src" /verif/check "$id" --tier "${TIER:-quick}" 2>&1 | grep -E "VIOLATION|^\[|INCONCLUSIVE|ENGINE-FAULT" | cut -c1-300 || true
 done
